@@ -61,7 +61,7 @@ def supported : List Str := Pyxv.Gen.supportedSheetNames.map String.toList
 
 /-- the candidate tuple of `find_sheet_misspellings(key, keys)`; `lower` stands for `str.lower` -/
 def misspellCands (lower : Str → Str) (sup : List Str) (key : Str) (keys : List Str) : List Str :=
-  keys.filter fun k => decide (levenshtein (lower k) key ≤ 2) && !sup.contains k && !startsWith k ['_']
+  keys.filter fun k => decide (levenshtein (lower k) key ≤ 2) && !sup.contains (lower k) && !startsWith k ['_']
 
 /-- `find_sheet_misspellings`: `None` when there is no candidate (or no sheet name at all) -/
 def findSheetMisspellings (lower : Str → Str) (sup : List Str) (key : Str) (keys : List Str) : Option (List Str) :=
